@@ -246,6 +246,15 @@ theorem ranking_stable (counts : Option (List (Str × Nat))) (scored : List Scor
     ∀ a b, [a, b].Sublist scored → less counts b a = false → [a, b].Sublist (rankExec counts scored) :=
   ⟨rankExec_isRanking counts scored, fun a b => rankExec_stable counts scored a b⟩
 
+/-- ... and that determines the ranking: any sorted permutation of distinct candidates that
+    keeps the input order in this sense IS `rankExec`'s (a stable sort is a function, so modelling
+    `sort.SliceStable` by one particular stable sort loses nothing). -/
+theorem ranking_unique (counts : Option (List (Str × Nat))) (scored r : List Scored)
+    (hnd : scored.Nodup) (hr : IsRanking counts scored r)
+    (hst : ∀ a b, [a, b].Sublist scored → less counts b a = false → [a, b].Sublist r) :
+    r = rankExec counts scored :=
+  stable_ranking_unique counts scored r hnd hr hst
+
 /-- `limit-prefix-tie-order` (repaired by making the sort stable and the analyzer's order
     deterministic): with `sort.Slice` any sorted permutation was possible, two requests could rank
     tied names differently, and then the shorter answer is not a prefix of the longer one.  Both
@@ -285,7 +294,7 @@ theorem ranking_keys_unique (counts : Option (List (Str × Nat))) (scored r₁ r
   omega
 
 /-- `limit_prefix` on keys for ANY two sorted permutations (holds even for an unstable sort). -/
-theorem limit_prefix_keys_partial (counts : Option (List (Str × Nat))) (f : Bool) (m₁ m₂ : Int)
+theorem limit_prefix_keys_any_sort (counts : Option (List (Str × Nat))) (f : Bool) (m₁ m₂ : Int)
     (line : Str) (ch : Nat) (trig : Str) (scored r₁ r₂ : List Scored)
     (h₁ : IsRanking counts scored r₁) (h₂ : IsRanking counts scored r₂) (h : normMax m₁ ≤ normMax m₂) :
     (finish ⟨m₁, f⟩ line ch trig r₁).items.map (keyOf counts) =
@@ -444,29 +453,6 @@ theorem posting_fragment (pre frag rest : Str) (hi : pre ≠ [])
 example : (posting_fragment "  * (".toList "ass".toList "  1 USD".toList (by decide) (by decide) (by decide)).1
     = (posting_fragment "  * (".toList "ass".toList "  1 USD".toList (by decide) (by decide) (by decide)).1 := rfl
 
-/-- `skipCode` leaves a text alone that does not start with a parenthesis. -/
-theorem skipCode_id (s : Str) (h : ∀ c ∈ s.head?, c ≠ '(') : skipCode s = s := by
-  unfold skipCode
-  split
-  · exact absurd rfl (h '(' (by simp))
-  · rfl
-
-theorem dropWhile_append_frag (p : Char → Bool) (pre frag : Str) (hpre : ∀ c ∈ pre, p c = true)
-    (hf : ∀ c ∈ frag.head?, p c = false) : (pre ++ frag).dropWhile p = frag := by
-  rw [List.dropWhile_append_of_pos hpre]
-  cases frag with
-  | nil => rfl
-  | cons f fs =>
-    have := hf f (by simp)
-    simp [this]
-
-theorem take_pre_frag (p frag rest : Str) :
-    (p ++ frag ++ rest).take (p.length + frag.length) = p ++ frag := by
-  rw [← List.length_append]; exact List.take_left' rfl
-
-theorem length_sub_frag (p frag : Str) : (p ++ frag).length - frag.length = p.length := by
-  rw [List.length_append]; omega
-
 /-- Transaction line without a code: after the date, one blank and any status marks / blanks
     (`marks`), the payee query is the text typed behind them. -/
 theorem header_fragment (date marks frag rest p : Str) (hp : p = date ++ ' ' :: marks) (hd : ' ' ∉ date)
@@ -529,15 +515,6 @@ theorem header_fragment_code (date marks body blanks frag rest p : Str)
   · simp only [extractQuery, take_pre_frag, hstart]
     exact List.drop_left
   · simp only [editStart, take_pre_frag, hstart]
-
-theorem not_comma_of_blanks_frag (blanks frag : Str) (hbl : ∀ c ∈ blanks, isBlankTab c = true) (hc : ',' ∉ frag) :
-    ∀ x ∈ blanks ++ frag, (x == ',') = false := by
-  intro x hx
-  rcases List.mem_append.1 hx with hx | hx
-  · have := hbl x hx
-    simp only [isBlankTab, Bool.or_eq_true, beq_iff_eq] at this
-    rcases this with rfl | rfl <;> rfl
-  · simp only [beq_eq_false_iff_ne, ne_eq]; rintro rfl; exact hc hx
 
 /-- Comment, first tag: after the semicolon and blanks the tag query is the text typed behind them
     (no comma in it). -/
